@@ -51,6 +51,7 @@ STRENGTHENED = {
     'C49': 'missed at first (the lighthouse phases only covered frames arriving after the cancel); a family of stop points "stop while routines are already parked on the full query queue" was added (underlay made slow, parked state verified from the goroutine profile).',
     'C34-2': 'missed at first (relays were almost never used because every pair had a direct path); one pair of peers is now reachable only through the relay.',
     'C23-2': 'missed at first (no run ever reached the byte limit); byte-cap runs were added (a quiet flow whose run adds up to just below / at / above 65535 bytes, IPv4 and IPv6).',
+    'C41-2': 'not caught, deliberately: the change only moves behaviour inside a cell the statement leaves open (an unsafe route that strictly covers an overlay network). The unchanged tree itself loads 0.0.0.0/0 or 8.0.0.0/5 over an overlay 10.0.0.0/24 and refuses 10.0.0.0/8 only because the written address happens to lie inside the network; the monitor generates, counts and does not judge that cell, and a check demanding either outcome would be stricter than the property.',
     'C47': 'missed at first (short inputs were only presented as len==cap slices); short inputs at the front of a larger stale buffer were added.',
 }
 
